@@ -4,7 +4,7 @@
 //! Case language: see coq/theories/Run/RunC19.v.
 //!   (19 1 w tag n) (19 2 w tag) (19 3 w tag op a b) (19 4 tag op abits bbits)
 //!   (19 5 ty A B C s) (19 6 ty X Y s) (19 7 ty n) (19 8 ty op (an ad) (bn bd))
-//!   (19 9 ty op ka a kb b)
+//!   (19 9 ty op ka a kb b) (19 10 ty p r (x ..) (a b c d))
 use crate::guarded;
 use crate::num::{Enc, Fp, Rat};
 use crate::sx::*;
@@ -212,7 +212,7 @@ pub fn run(args: &[Sx]) -> Sx {
             };
             float_case(tag, o, a, b)
         }
-        5..=9 if args.len() >= 3 => {
+        5..=10 if args.len() >= 3 => {
             let Some(ty) = args[1].i64() else { return bad_case() };
             match ty {
                 0 => user_case::<Rat>(op, &args[2..]),
@@ -242,7 +242,10 @@ fn from_usize_case(w: i64, tag: i64, n: usize) -> Sx {
             if plain != wr || plain != sa {
                 return inconsistent(1912);
             }
-            opt(plain.filter(|b| *b == (n as f32).to_bits()).map(|_| z(1)))
+            // the nearest f32 (round half to even), computed in integer arithmetic, and `as`
+            opt(plain
+                .filter(|b| *b == (n as f32).to_bits() && *b as u64 == nearest_float_bits(n as u64, 23, 127))
+                .map(|_| z(1)))
         }
         13 => {
             let plain = f64::from_usize(n).map(|v| v.to_bits());
@@ -251,10 +254,38 @@ fn from_usize_case(w: i64, tag: i64, n: usize) -> Sx {
             if plain != wr || plain != sa {
                 return inconsistent(1913);
             }
-            opt(plain.filter(|b| *b == (n as f64).to_bits()).map(|_| z(1)))
+            opt(plain
+                .filter(|b| *b == (n as f64).to_bits() && *b == nearest_float_bits(n as u64, 52, 1023))
+                .map(|_| z(1)))
         }
         _ => dispatch_all!(w, tag, fu(n)),
     }
+}
+
+/// Bit pattern of the binary float (`mant` explicit mantissa bits, exponent bias `bias`) nearest
+/// to the count n, ties to even — integer arithmetic only, independent of the `as` casts.
+fn nearest_float_bits(n: u64, mant: u32, bias: u64) -> u64 {
+    if n == 0 {
+        return 0;
+    }
+    let mut e = 63 - n.leading_zeros(); // floor(log2 n)
+    let mut q: u128;
+    if e <= mant {
+        q = (n as u128) << (mant - e);
+    } else {
+        let shift = e - mant;
+        q = (n >> shift) as u128;
+        let rem = n & ((1u64 << shift) - 1);
+        let half = 1u64 << (shift - 1);
+        if rem > half || (rem == half && q & 1 == 1) {
+            q += 1;
+        }
+        if q == 1u128 << (mant + 1) {
+            q >>= 1;
+            e += 1;
+        }
+    }
+    (((e as u64) + bias) << mant) | ((q as u64) & ((1u64 << mant) - 1))
 }
 
 fn zo<T: ZeroOne + IntEnc>() -> Sx {
@@ -448,6 +479,36 @@ where
                 opt(<Record<T>>::from_usize(n).map(sr)),
             ])
         }
+        10 if args.len() == 4 => {
+            let (Some(p), Some(r), Some(xs), Some(m)) = (
+                T::dec(&args[0]),
+                T::dec(&args[1]),
+                crate::num::dec_list::<T>(&args[2]),
+                crate::num::dec_list::<T>(&args[3]),
+            ) else {
+                return bad_case();
+            };
+            if xs.is_empty() || m.len() != 4 {
+                return bad_case();
+            }
+            use easy_ml::linear_algebra as la;
+            let matrix = Matrix::from_flat_row_major((2, 2), m.clone());
+            let tensor = Tensor::from([(dim(0), 2), (dim(1), 2)], m);
+            let det = la::determinant::<T>(&matrix);
+            if det != la::determinant_tensor::<T, _, _>(&tensor) {
+                return inconsistent(1970);
+            }
+            let Some(det) = det else { return inconsistent(1971) };
+            if everywhere_at_rat() == 0 {
+                return inconsistent(1972);
+            }
+            l(vec![
+                la::f1_score::<T>(p, r).enc(),
+                la::mean(xs.iter().cloned()).enc(),
+                la::variance(xs.into_iter()).enc(),
+                det.enc(),
+            ])
+        }
         8 if args.len() == 3 => {
             let (Some(o), Some(a), Some(b)) = (args[0].i64(), dec_trace::<T>(&args[1]), dec_trace::<T>(&args[2]))
             else {
@@ -554,4 +615,54 @@ where
             ]))
         }
     }
+}
+
+/// "Any user type supplying the same operations can be used everywhere a numeric type is
+/// accepted": every generic routine of easy_ml::linear_algebra instantiated at `Rat`, which is
+/// Clone but NOT Copy (and is not a primitive), so that a hidden extra bound on any of them
+/// breaks the build of this harness. Returns the number of routines that ran without panicking.
+fn everywhere_at_rat() -> usize {
+    use easy_ml::linear_algebra as la;
+    let q = |v: i64| Rat::int(v);
+    let data = vec![q(4), q(1), q(1), q(3)];
+    let m = Matrix::from_flat_row_major((2, 2), data.clone());
+    let t = Tensor::from([(dim(0), 2), (dim(1), 2)], data.clone());
+    let mut ran = 0usize;
+    macro_rules! call {
+        ($e:expr) => {
+            if guarded(|| {
+                let _ = $e;
+            })
+            .is_some()
+            {
+                ran += 1;
+            }
+        };
+    }
+    call!(la::inverse::<Rat>(&m));
+    call!(la::inverse_tensor::<Rat, _, _>(&t));
+    call!(la::determinant::<Rat>(&m));
+    call!(la::determinant_tensor::<Rat, _, _>(&t));
+    call!(la::covariance_column_features::<Rat>(&m));
+    call!(la::covariance_row_features::<Rat>(&m));
+    call!(la::covariance::<Rat, _, _>(&t, dim(0)));
+    call!(la::mean(data.iter().cloned()));
+    call!(la::variance(data.iter().cloned()));
+    call!(la::softmax(data.iter().cloned()));
+    call!(la::f1_score::<Rat>(q(1), q(3)));
+    call!(la::cholesky_decomposition::<Rat>(&m));
+    call!(la::cholesky_decomposition_tensor::<Rat, _, _>(&t));
+    call!(la::ldlt_decomposition::<Rat>(&m));
+    call!(la::ldlt_decomposition_tensor::<Rat, _, _>(&t));
+    call!(la::qr_decomposition::<Rat>(&m));
+    call!(la::qr_decomposition_tensor::<Rat, _, _>(&t));
+    // the same through the container methods and the AD wrappers of the user type
+    call!(m.determinant());
+    call!(m.inverse());
+    call!(m.covariance_column_features());
+    call!(t.determinant());
+    call!(t.inverse());
+    call!(la::f1_score::<Trace<Rat>>(Trace::constant(q(1)), Trace::variable(q(3))));
+    call!(la::mean(data.iter().cloned().map(Record::constant)));
+    ran
 }
